@@ -225,8 +225,11 @@ def accepts(ptype, cfg, v):
         objs = cfg.get('objects') or []
         objs = list(objs.values()) if isinstance(objs, dict) else list(objs)
         if cfg.get('check_on_set') is False:
-            if ptype == 'ListSelector' and v is not None and not isinstance(v, list):
-                return REJECT
+            if ptype == 'ListSelector':
+                if v is None:
+                    return ACCEPT if allow_none else REJECT
+                if not isinstance(v, list):
+                    return REJECT
             return ACCEPT                       # documented: unknown values are added to the objects
         if v is None and allow_none:
             return ACCEPT
